@@ -1112,6 +1112,9 @@ func (sc *RevScenario) setup(obs *RevObs, altSeed uint32, nt *Net, ka *keyAlloca
 	}
 	ocspClient := &http.Client{Transport: nt, Timeout: half(sc.OCSPTimeout)}
 	crlClient := &http.Client{Transport: nt, Timeout: half(sc.CRLTimeout)}
+	if sc.SharedClient {
+		crlClient = ocspClient
+	}
 	var fetcher corecrl.Fetcher
 	var cache *SimCache
 	slots := map[string]*fetchSlot{}
